@@ -311,9 +311,9 @@ def _pipe_family(name, modes, stages, n, space, engines="dagre"):
                           args={"modes": modes, "stages": stages, "n": str(n), "space": str(space), "engines": engines}, chunk=1500, heap="4g")
 
 
-_pipe_family("pipe_fmt", "text", "fmt", 300, 1200)
-_pipe_family("pipe_compile", "text,text-mut", "compile", 400, 1600)
-_pipe_family("pipe_det", "text", "determinism", 150, 1200)
+_pipe_family("pipe_fmt", "text,text2", "fmt", 300, 1200)
+_pipe_family("pipe_compile", "text,text-mut,text2,text2-mut", "compile", 800, 4000)
+_pipe_family("pipe_det", "text,text2", "determinism", 150, 1200)
 _pipe_family("pipe_layout", "layout,layout-tricky", "layout", 100, 1200, "dagre,elk")
 _pipe_family("pipe_serde", "layout,layout-tricky", "layout,serde", 60, 1200, "dagre,elk")
 
@@ -324,15 +324,17 @@ def _pp(pid, fam, design, technique, rule, text, assumptions, exhaustive=True):
     PROPS[pid] = dict(family=fam, level="exploration", design_ref=design, technique=technique, rule=_pipe_space + rule, exhaustive=dict(quick=False, thorough=exhaustive),
                       assumptions=assumptions, text=text, note=_pipe_note)
 
+_gen_text2 = ("mode text2: mode text plus line comments of every form (empty, blank, tab, trailing blanks, indented, inside maps, before connections), block comments, labels spelled like numbers (007, +5, 0x1F, 1_000, 1e3, .5), "
+              "explicit boundary values of style keywords on shapes and connections, links and tooltips on labelled connections; ")
 _gen_text = "mode text: object trees of 1-6 objects with plain and tricky names/labels (quotes, dots, unicode, XML metacharacters, keywords), containers, styles, classes, markdown, grids, sequence diagrams, near constants, and layers/scenarios/steps blocks placed before, between or after the other declarations; "
 _pp("C03", "pipe_fmt", "4.11", "stage guard on Format: TLC evaluates parse(fmt(x)) ok and fmt(fmt(x)) = fmt(x) on the real formatter's output for every generated program",
-    _gen_text + "1200 programs. Non-trivial: the program parses.", "Format is a stage transition of TracePipeline; its guard is the property.",
+    _gen_text + _gen_text2 + "1200 + 1200 programs. Non-trivial: the program parses.", "Format is a stage transition of TracePipeline; its guard is the property.",
     ["byte equality of the two formatter outputs is computed in Go and judged by TLC as a flag"])
 _pp("C04", "pipe_fmt", "4.11", "stage guard on Format: the projection (all boards: objects, labels, shapes, attributes, connections with index) of compile(x) must equal that of compile(fmt(x)), judged by TLC",
-    _gen_text + "1200 programs. Non-trivial: the program compiles.", "Same stage as C03 with the meaning-preservation guard.",
+    _gen_text + _gen_text2 + "1200 + 1200 programs. Non-trivial: the program compiles.", "Same stage as C03 with the meaning-preservation guard.",
     ["meaning = harness/internal/proj digest of every board (IDs, parents, labels, shapes, every attribute, connections with endpoints/arrows/index/labels)"])
 _pp("C07", "pipe_compile", "4.11", "totality monitor on Compile: every call returns a graph or positioned errors, never panics or hangs, within a time bound linear in the input; inputs incl. 1-3 random damages and reserved keywords/config keys with every value shape",
-    _gen_text + "plus mode text-mut: the same programs damaged in 1-3 places (byte deletion/insertion of structural tokens, truncation, duplication, line swaps) or prefixed with reserved/config keywords given scalar, map, array, null, import and substitution values; 1600 x 2 inputs. Non-trivial: more than 20 bytes.",
+    _gen_text + "plus mode text-mut: the same programs damaged in 1-3 places (byte deletion/insertion of structural tokens, truncation, duplication, line swaps) or prefixed with reserved/config keywords given scalar, map, array, null, import and substitution values; mode text2 (see C03) and mode text2-mut: program #i holds exactly one declaration of a reserved keyword or configuration key (29 keywords x 31 values incl. board keywords and board paths x 4 places - dotted key, map, connection, inside a layer - plus 13 configuration keys x 31 values, spread over the seeds by a multiplicative permutation) followed by a fixed valid tail with boards, because any error ends compilation before the later passes; 4000 x 4 inputs (quick: 800 x 4). Non-trivial: more than 20 bytes.",
     "Compile is a stage transition whose guard is the totality contract.", ["time bound 3000 ms + 1 ms per input byte", "import sets are not generated here (no importable files)"])
 _pp("C08", "pipe_det", "4.11", "Compile stage run 1 + 6 concurrent + 2 sequential times per program; TLC checks that the relation input -> projection digest is functional",
     _gen_text + "1200 programs, each compiled 9 times (6 from concurrent goroutines). Non-trivial: the program compiles.", "Determinism guard of the Compile stage.",
@@ -423,12 +425,12 @@ def corrupt_render(lines, pid):
     return None
 
 
-_pipe_family("pipe_render", "render", "layout,render", 100, 600, "dagre")
+_pipe_family("pipe_render", "render,render2", "layout,render", 100, 600, "dagre")
 FAMILIES["pipe_render"]["corrupt"] = corrupt_render
 _gen_render = ("mode render: 1-5 objects, all shapes, containers, styles, explicit sizes, icons, markdown, near constants, classes, tooltips and links; names, labels, tooltips and links carry XML metacharacters, quotes, "
                "control characters and the marker ZQXJ inside attribute-breaking and element-injecting payloads; dagre; per diagram 2 exports (a random catalog theme and one of the special-rule themes 300/301/303) and 3 renders "
                "(pad 100 / random pad + sketch + random theme / centre + scale + dark theme 200|201 + 1-4 random colour overrides); 600 diagrams. ")
-_rn_assume = ["SVG tokenised with Go's strict encoding/xml (HTML entities allowed)", "element/attribute vocabulary = specs/svg_vocab.json, learnt by tools/learn_vocab.sh from the marker-free twin diagrams (mode render-plain) on the unchanged tree"]
+_rn_assume = ["SVG tokenised with Go's strict encoding/xml (HTML entities allowed)", "element/attribute vocabulary = specs/svg_vocab.json, learnt by tools/learn_vocab.sh from the marker-free twin diagrams (modes render-plain, render2-plain) on the unchanged tree"]
 _pp("C25", "pipe_render", "4.11", "Render stage determinism guard: the same input and options compiled, laid out and rendered again from 2 concurrent goroutines (while other diagrams are processed in up to 12 goroutines); TLC checks all SVG digests equal",
     _gen_render + "Non-trivial: every diagram.", "Determinism guard of the whole pipeline in one process.", ["separate processes and the race detector are not part of this check", "each run uses its own text ruler (textmeasure.Ruler is documented as not goroutine-safe)"])
 _pp("C28", "pipe_render", "4.11", "Export stage guard: TLC checks shapes <-> objects and connections <-> connections (with source and destination IDs) are bijections, and every style value the user set equals the exported one, under several themes incl. the special-rule themes",
